@@ -360,3 +360,297 @@ class TermEval:
 def parse_term(text: str, env=None, atoms=None, funcs=None) -> tuple:
     """Evaluate a reference formula written as a Python expression."""
     return TermEval(env, atoms, funcs).ev(ast.parse(text, mode="eval").body)
+
+
+# ---------------------------------------------------------------------------
+# partial evaluation of small dispatch functions (operator tables)
+
+
+class _Raise(Exception):
+    def __init__(self, exc_name: str):
+        self.exc_name = exc_name
+
+
+class _Unknown(Exception):
+    pass
+
+
+class PEval:
+    """Specialise a small function for constant values of some parameters and return the term it builds.
+
+    Handles the shapes a dispatch function takes in practice: ``if op == "+": return ...`` chains, early returns,
+    ``TABLE[op](a, b)`` with a module-level dict of lambdas / helper functions, ``try: f = TABLE[op] except KeyError:
+    raise ...``, ``match``-less helper calls.  Everything else is 'unknown' (never guessed).  Nothing is executed:
+    conditions are decided only when they compare constants."""
+
+    def __init__(self, module: ast.Module, atoms=None, identity=()):
+        self.module = module
+        self.atoms = dict(atoms or {})
+        self.identity = set(identity)
+        self.mod_defs: dict[str, ast.AST] = {}
+        for st in module.body:
+            if isinstance(st, ast.FunctionDef):
+                self.mod_defs[st.name] = st
+            elif isinstance(st, ast.Assign) and len(st.targets) == 1 and isinstance(st.targets[0], ast.Name):
+                self.mod_defs[st.targets[0].id] = st.value
+            elif isinstance(st, ast.AnnAssign) and isinstance(st.target, ast.Name) and st.value is not None:
+                self.mod_defs[st.target.id] = st.value
+
+    # values: ('const', python value) | term tuples | ('callable', node, closure_env) | ('dict', {key: node}, env)
+    def run(self, fn: ast.FunctionDef, args: dict, depth: int = 0):
+        if depth > 6:
+            raise _Unknown()
+        env = dict(args)
+        return self._block(fn.body, env, depth)
+
+    def outcome(self, fn: ast.FunctionDef, args: dict):
+        try:
+            return ("return", self.run(fn, args))
+        except _Raise as r:
+            return ("raise", r.exc_name)
+        except _Unknown:
+            return ("unknown", None)
+
+    def _block(self, stmts, env, depth):
+        for st in stmts:
+            if isinstance(st, ast.Expr):
+                continue
+            if isinstance(st, (ast.Assign, ast.AnnAssign)):
+                tgts = st.targets if isinstance(st, ast.Assign) else [st.target]
+                if st.value is None:
+                    continue
+                v = self._ev(st.value, env, depth)
+                for t in tgts:
+                    if isinstance(t, ast.Name):
+                        env[t.id] = v
+                    else:
+                        raise _Unknown()
+                continue
+            if isinstance(st, ast.Return):
+                if st.value is None:
+                    return ("const", None)
+                return self._ev(st.value, env, depth)
+            if isinstance(st, ast.Raise):
+                name = "Exception"
+                if st.exc is not None:
+                    e = st.exc.func if isinstance(st.exc, ast.Call) else st.exc
+                    name = (dotted(e) or "Exception").split(".")[-1]
+                raise _Raise(name)
+            if isinstance(st, ast.If):
+                c = self._test(st.test, env, depth)
+                if c is None:
+                    raise _Unknown()
+                r = self._block(st.body if c else st.orelse, env, depth)
+                if r is not None:
+                    return r
+                continue
+            if isinstance(st, ast.Try):
+                try:
+                    r = self._block(st.body, env, depth)
+                    if r is not None:
+                        return r
+                    r = self._block(st.orelse, env, depth)
+                    if r is not None:
+                        return r
+                except _Raise as exc:
+                    handled = False
+                    for h in st.handlers:
+                        names = []
+                        if h.type is None:
+                            names = [exc.exc_name]
+                        else:
+                            ts = h.type.elts if isinstance(h.type, ast.Tuple) else [h.type]
+                            names = [(dotted(t) or "").split(".")[-1] for t in ts]
+                        if exc.exc_name in names or "Exception" in names or "BaseException" in names or (exc.exc_name == "KeyError" and "LookupError" in names):
+                            handled = True
+                            r = self._block(h.body, env, depth)
+                            if r is not None:
+                                return r
+                            break
+                    if not handled:
+                        raise
+                continue
+            if isinstance(st, ast.Pass):
+                continue
+            raise _Unknown()
+        return None
+
+    def _test(self, t, env, depth):
+        if isinstance(t, ast.UnaryOp) and isinstance(t.op, ast.Not):
+            c = self._test(t.operand, env, depth)
+            return None if c is None else (not c)
+        if isinstance(t, ast.BoolOp):
+            vals = [self._test(v, env, depth) for v in t.values]
+            if any(v is None for v in vals):
+                return None
+            return all(vals) if isinstance(t.op, ast.And) else any(vals)
+        if isinstance(t, ast.Compare) and len(t.ops) == 1:
+            try:
+                l = self._ev(t.left, env, depth)
+                r = self._ev(t.comparators[0], env, depth)
+            except (_Unknown, _Raise):
+                return None
+            op = t.ops[0]
+            if l[0] == "const" and r[0] == "const":
+                if isinstance(op, (ast.Eq, ast.Is)):
+                    return l[1] == r[1]
+                if isinstance(op, (ast.NotEq, ast.IsNot)):
+                    return l[1] != r[1]
+                if isinstance(op, ast.In):
+                    try:
+                        return l[1] in r[1]
+                    except TypeError:
+                        return None
+                if isinstance(op, ast.NotIn):
+                    try:
+                        return l[1] not in r[1]
+                    except TypeError:
+                        return None
+            if l[0] == "const" and r[0] == "dict" and isinstance(op, (ast.In, ast.NotIn)):
+                res = l[1] in r[1]
+                return res if isinstance(op, ast.In) else not res
+        return None
+
+    def _ev(self, n, env, depth):
+        if isinstance(n, ast.Constant):
+            return ("const", n.value)
+        if isinstance(n, (ast.Tuple, ast.List, ast.Set)):
+            vals = [self._ev(e, env, depth) for e in n.elts]
+            if all(v[0] == "const" for v in vals):
+                return ("const", tuple(v[1] for v in vals))
+            return ("fn", "tuple", tuple(vals))
+        if isinstance(n, ast.Name):
+            if n.id in env:
+                return env[n.id]
+            if n.id in self.mod_defs:
+                d = self.mod_defs[n.id]
+                if isinstance(d, ast.FunctionDef):
+                    return ("callable", d, {})
+                return self._ev(d, {}, depth + 1)
+            if n.id in self.atoms:
+                return atom(self.atoms[n.id])
+            return atom(n.id)
+        if isinstance(n, ast.Lambda):
+            return ("callable", n, dict(env))
+        if isinstance(n, ast.Dict):
+            keys = {}
+            for k, v in zip(n.keys, n.values):
+                if k is None:
+                    raise _Unknown()
+                kv = self._ev(k, env, depth)
+                if kv[0] != "const":
+                    raise _Unknown()
+                keys[kv[1]] = (v, dict(env))
+            return ("dict", keys)
+        if isinstance(n, ast.Subscript):
+            base = self._ev(n.value, env, depth)
+            key = self._ev(n.slice, env, depth)
+            if base[0] == "dict" and key[0] == "const":
+                if key[1] not in base[1]:
+                    raise _Raise("KeyError")
+                node, cenv = base[1][key[1]]
+                return self._ev(node, cenv, depth + 1)
+            raise _Unknown()
+        if isinstance(n, ast.Call):
+            d = dotted(n.func)
+            # dict.get(key[, default])
+            if isinstance(n.func, ast.Attribute) and n.func.attr == "get" and n.args:
+                base = self._ev(n.func.value, env, depth)
+                key = self._ev(n.args[0], env, depth)
+                if base[0] == "dict" and key[0] == "const":
+                    if key[1] in base[1]:
+                        node, cenv = base[1][key[1]]
+                        return self._ev(node, cenv, depth + 1)
+                    if len(n.args) > 1:
+                        return self._ev(n.args[1], env, depth)
+                    return ("const", None)
+            if d is not None and (d in self.identity or d.split(".")[-1] in self.identity) and n.args:
+                return self._ev(n.args[0], env, depth)
+            # callable held in a local / module-level helper
+            callee = None
+            if isinstance(n.func, ast.Name):
+                if n.func.id in env and isinstance(env[n.func.id], tuple) and env[n.func.id][0] == "callable":
+                    callee = env[n.func.id]
+                elif n.func.id in self.mod_defs and isinstance(self.mod_defs[n.func.id], (ast.FunctionDef, ast.Lambda)):
+                    callee = ("callable", self.mod_defs[n.func.id], {})
+            elif isinstance(n.func, (ast.Subscript, ast.Call)):
+                v = self._ev(n.func, env, depth)
+                if v[0] == "callable":
+                    callee = v
+            if callee is not None:
+                return self._apply(callee, n, env, depth)
+            # sympy constructors and everything else: build a term with TermEval on evaluated arguments
+            targs = []
+            for a in n.args:
+                targs.append(self._term(self._ev(a, env, depth)))
+            tail = (d or "").split(".")[-1]
+            head = (d or "").split(".")[0]
+            if head in ("sp", "sympy"):
+                if tail == "Add":
+                    return mk_add(targs)
+                if tail == "Mul":
+                    return mk_mul(targs)
+                if tail == "Pow" and len(targs) == 2:
+                    return mk_pow(targs[0], targs[1])
+                if tail == "Integer" and len(targs) == 1:
+                    return targs[0]
+            return ("fn", d or norm(n.func), tuple(targs))
+        if isinstance(n, ast.UnaryOp) and isinstance(n.op, ast.USub):
+            return mk_mul([num(-1), self._term(self._ev(n.operand, env, depth))])
+        if isinstance(n, ast.UnaryOp) and isinstance(n.op, ast.UAdd):
+            return self._ev(n.operand, env, depth)
+        if isinstance(n, ast.BinOp):
+            l, r = self._term(self._ev(n.left, env, depth)), self._term(self._ev(n.right, env, depth))
+            if isinstance(n.op, ast.Add):
+                return mk_add([l, r])
+            if isinstance(n.op, ast.Sub):
+                return mk_add([l, mk_mul([num(-1), r])])
+            if isinstance(n.op, ast.Mult):
+                return mk_mul([l, r])
+            if isinstance(n.op, ast.Div):
+                return mk_mul([l, mk_pow(r, num(-1))])
+            if isinstance(n.op, ast.Pow):
+                return mk_pow(l, r)
+        if isinstance(n, ast.Attribute):
+            d = dotted(n)
+            if d:
+                tail = d.split(".")[-1]
+                if d.split(".")[0] in ("sp", "sympy") and tail in ("Zero", "One", "NegativeOne"):
+                    return num({"Zero": 0, "One": 1, "NegativeOne": -1}[tail])
+                return atom(d)
+        raise _Unknown()
+
+    def _term(self, v):
+        if v[0] == "const":
+            if isinstance(v[1], bool) or v[1] is None:
+                return atom(str(v[1]))
+            if isinstance(v[1], (int, float)):
+                return num(v[1])
+            return atom(repr(v[1]))
+        if v[0] in ("callable", "dict"):
+            raise _Unknown()
+        return v
+
+    def _apply(self, callee, call: ast.Call, env, depth):
+        _, node, cenv = callee
+        a = node.args
+        params = [p.arg for p in a.posonlyargs + a.args]
+        bound = dict(cenv)
+        for i, arg in enumerate(call.args):
+            if i >= len(params):
+                raise _Unknown()
+            bound[params[i]] = self._ev(arg, env, depth)
+        for k in call.keywords:
+            if k.arg is None:
+                raise _Unknown()
+            bound[k.arg] = self._ev(k.value, env, depth)
+        defaults = dict(zip(params[len(params) - len(a.defaults):], a.defaults))
+        for p in params:
+            if p not in bound and p in defaults:
+                bound[p] = self._ev(defaults[p], {}, depth)
+        if isinstance(node, ast.Lambda):
+            return self._ev(node.body, bound, depth + 1)
+        r = self._block(node.body, bound, depth + 1)
+        if r is None:
+            return ("const", None)
+        return r
